@@ -80,6 +80,14 @@ Proof.
   - split; [right; left; exact Hb|exact IH].
 Qed.
 
+Lemma full_but_last_app si bl1 lastbl : Forall (fun b => FlacCodec.Enc.block_len b = FlacCodec.Ast.si_max_bs si) bl1 ->
+  (length lastbl <= 1)%nat -> FlacCodec.File.full_but_last si (bl1 ++ lastbl).
+Proof.
+  intros F Hl. induction F as [|b bl1 Hb F IH]; cbn [app FlacCodec.File.full_but_last].
+  - destruct lastbl as [|x [|y r]]; cbn [FlacCodec.File.full_but_last length] in *; try lia; auto.
+  - split; [right; exact Hb|exact IH].
+Qed.
+
 Theorem e2e_sample_pcm wo ch total w chunks f :
   options_wf wo ->
   sample_new p [] wo rate bps ch total = Ok w ->
@@ -93,7 +101,9 @@ Theorem e2e_sample_pcm wo ch total w chunks f :
     (* the blocks themselves, for the readers area *)
     Forall (EP.block_ok (conv_si (f_si f)) bps) blocks /\ EP.short_only_last (conv_si (f_si f)) blocks /\
     FlacCodec.Ast.si_total (conv_si (f_si f)) = EP.blocks_samples blocks /\
-    FlacCodec.Ast.si_channels (conv_si (f_si f)) = ch /\ EP.blocks_samples blocks < 2 ^ 36.
+    FlacCodec.Ast.si_channels (conv_si (f_si f)) = ch /\ EP.blocks_samples blocks < 2 ^ 36 /\
+    (* C02: the strict stream validator accepts the finished file and yields the same blocks *)
+    FlacCodec.Spec.spec_stream (f_stream f) = Ok (conv_si (f_si f), blocks).
 Proof.
   intros Hwf Hnew Hrun Hfits Hlen36.
   pose proof (sample_new_wf p [] wo rate bps ch total w Hwf Hnew) as Hsw.
@@ -180,13 +190,16 @@ Proof.
     as (Hok & Hcat & Hsum & Hcount & Hlens).
   assert (Hsub : (length (concat (cs ++ wholes)) <= length all)%nat).
   { rewrite concat_app, app_length, Hwc, firstn_length, Eall, app_length. lia. }
-  assert (Hshape : EP.short_only_last si (bl1 ++ lastbl)).
-  { apply short_only_last_app; [|exact Llast].
-    destruct (chunks_blocks_ok si ch bs Hc1 Hc8 Hb1 Hb32 ltac:(lia) Ssb Ssc Ssm _ _ Hf1 Hcs) as (_ & _ & _ & _ & Hl1).
+  assert (Hfullbl : Forall (fun b => FlacCodec.Enc.block_len b = bs) bl1).
+  { destruct (chunks_blocks_ok si ch bs Hc1 Hc8 Hb1 Hb32 ltac:(lia) Ssb Ssc Ssm _ _ Hf1 Hcs) as (_ & _ & _ & _ & Hl1).
     clear - Hl1 Fcs Hkk Hbs16 Hc1. induction Hl1 as [|c b cl bl Hcb _ IH]; constructor.
     * apply Forall_cons_iff in Fcs. destruct Fcs as [Lc _]. rewrite Lc, Hkk in Hcb.
       assert (N.to_nat (FlacCodec.Enc.block_len b) = N.to_nat bs) by nia. lia.
     * apply IH. apply Forall_cons_iff in Fcs. tauto. }
+  assert (Hshape : EP.short_only_last si (bl1 ++ lastbl)).
+  { apply short_only_last_app; [|exact Llast]. eapply Forall_impl; [|exact Hfullbl]. intros b Hb. cbn beta in Hb. rewrite Hb. lia. }
+  assert (Hfull : FlacCodec.File.full_but_last si (bl1 ++ lastbl)).
+  { apply full_but_last_app; [|exact Llast]. rewrite Ssm. exact Hfullbl. }
   assert (Hcnt : (length (bl1 ++ lastbl) <= length (concat (cs ++ wholes)))%nat).
   { rewrite Hcount. clear - Hcs Hwh Hc1. assert (F : Forall (chunk_cond ch bs) (cs ++ wholes)) by (apply Forall_app; split; assumption).
     induction F as [|c l (n & Hn & _ & Hl & _) _ IH]; cbn [concat length]; [lia|]. rewrite app_length. nia. }
@@ -195,7 +208,12 @@ Proof.
   { unfold FlacCodec.Header.MAX_FRAME_NUMBER. change (2 ^ 36 - 1 + 1) with (2 ^ 36). lia. }
   { lia. }
   fold si in Hdec, Htot.
-  exists (bl1 ++ lastbl). split; [exact Hdec|]. split; [|split; [exact Hok|split; [exact Hshape|split; [exact Htot|split; [exact Ssc|lia]]]]].
+  assert (Hspec : FlacCodec.Spec.spec_stream (f_stream f) = Ok (si, bl1 ++ lastbl)).
+  { apply (e2e_encoder_spec o L md5 md5_length p rate bps wo ch t e0 (bl1 ++ lastbl) e2 f He0 Hr Hfin Hok Hfull).
+    - unfold FlacCodec.Header.MAX_FRAME_NUMBER. change (2 ^ 36 - 1 + 1) with (2 ^ 36). lia.
+    - lia.
+    - fold bs. lia. }
+  exists (bl1 ++ lastbl). split; [exact Hdec|]. split; [|split; [exact Hok|split; [exact Hshape|split; [exact Htot|split; [exact Ssc|split; [lia|exact Hspec]]]]]].
   rewrite Hcat, concat_app, Hwc.
     (* concat cs ++ the whole PCM frames of the rest = the whole PCM frames of everything *)
     assert (Lcs : length (concat cs) = (k * length cs)%nat).
